@@ -3,7 +3,7 @@
    stepping in ANY order that mentions every node yields the same node states and exactly one
    event per node. *)
 From Coq Require Import String ZArith NArith List Bool Lia Permutation.
-Require Import PV.Base.Val PV.Model.DStreamRdd PV.Model.DStream.
+Require Import PV.Base.Val PV.Gen.DStreamStep PV.Model.DStreamRdd PV.Model.DStream.
 Import ListNotations.
 Open Scope Z_scope.
 
@@ -231,10 +231,17 @@ Proof.
   destruct nd; try reflexivity. exfalso; eapply Hn; eauto.
 Qed.
 
-Lemma guard_done : guard t t = true.
-Proof. unfold guard. apply Z.leb_refl. Qed.
-Lemma guard_pending c : c < t -> guard t c = false.
-Proof. unfold guard. intros. apply Z.leb_gt; auto. Qed.
+(* the regenerated guards: "already stepped at this time" returns, an older node proceeds *)
+Lemma guard_done nd : guard nd t t = true.
+Proof.
+  destruct nd; unfold guard, step_guard_DStream, step_guard_TransformedDStream,
+    step_guard_TransformedWithDStream, step_guard_CogroupedDStream; apply Z.leb_refl.
+Qed.
+Lemma guard_pending nd c : c < t -> guard nd t c = false.
+Proof.
+  intros H. destruct nd; unfold guard, step_guard_DStream, step_guard_TransformedDStream,
+    step_guard_TransformedWithDStream, step_guard_CogroupedDStream; apply Z.leb_gt; auto.
+Qed.
 
 Definition step_post (i : nat) (st : state) (dl : list nat) (r : option state) : Prop :=
   exists st' dl', r = Some st' /\ Inv st' (dl ++ dl') /\ In i (dl ++ dl') /\
@@ -304,7 +311,7 @@ Proof.
   - (* already stepped at this time: the guard returns *)
     rewrite post_time, guard_done. apply step_post_done; auto. apply inb_In; auto.
   - assert (Hnin : ~ In i dl) by (intro H; apply inb_In in H; congruence).
-    rewrite (guard_pending _ (Hlt i s0 Hs0)).
+    rewrite (guard_pending nd _ (Hlt i s0 Hs0)).
     destruct nd as [k|f p|f p1 p2|op np p1 p2].
     + (* source *)
       pose proof (post_src i k s0 Hg Hs0) as Hp.
